@@ -16,6 +16,23 @@ use crate::util::{guarded, jstr, on_thread, Rng, ANALYSIS_STACK};
 
 pub fn files_of(item: &Value) -> BTreeMap<String, String> {
     let mut m = BTreeMap::new();
+    if let Some(dir) = item.get("files_dir").and_then(|d| d.as_str()) {
+        fn walk(d: &std::path::Path, m: &mut BTreeMap<String, String>) {
+            if let Ok(rd) = std::fs::read_dir(d) {
+                for e in rd.flatten() {
+                    let p = e.path();
+                    if p.is_dir() {
+                        walk(&p, m);
+                    } else if p.extension().map(|x| x == "td").unwrap_or(false) {
+                        if let Ok(t) = std::fs::read_to_string(&p) {
+                            m.insert(p.to_string_lossy().to_string(), t);
+                        }
+                    }
+                }
+            }
+        }
+        walk(std::path::Path::new(dir), &mut m);
+    }
     if let Some(o) = item.get("files").and_then(|f| f.as_object()) {
         for (k, v) in o {
             m.insert(k.clone(), v.as_str().unwrap_or("").to_string());
@@ -125,7 +142,7 @@ pub fn ws_files(ws: &Ws, a: &Analysis, disk: &BTreeMap<String, String>) -> Resul
 
 fn offsets_for(fi: &FileInfo, mode: &str, maxn: usize, rng: &mut Rng) -> Vec<usize> {
     let t = &fi.text;
-    if mode == "all" || t.len() <= 256 {
+    if mode == "all" {
         return (0..=t.len()).filter(|&o| t.is_char_boundary(o)).collect();
     }
     // start, middle, end of seeded identifier tokens + file ends
